@@ -54,8 +54,10 @@ def registry() -> Dict[str, Check]:
     reg: Dict[str, Check] = {}
     reg["C01"] = Check(
         "C01", {"C01"},
-        [Batch("B-mix", gen_b.gen_history, 40000, 400000, driver="B", budget_s=30.0),
-         Batch("A-engine", gen_a.gen_engine, 2500, 40000, driver="A", budget_s=90.0, profile="engine")],
+        [Batch("B-mix", gen_b.gen_history, 20000, 400000, driver="B", budget_s=30.0),
+         Batch("A-engine", gen_a.gen_engine, 2500, 40000, driver="A", budget_s=90.0, profile="engine"),
+         Batch("B-deep", gen_b.gen_deep, 96, 3000, driver="B", budget_s=300.0, profile="deep"),
+         Batch("A-scale", gen_a.gen_scale, 12, 240, driver="A", budget_s=600.0, profile="scale")],
         nontrivial=lambda s: s["probes"].get("round_ge3_fills", 0) + s["probes"].get("last_pair_prices_differ", 0) > 0,
         rule="Seeded driver-B histories / driver-A runs; non-trivial = at least one matching round whose last pair "
              "had different limit prices or that produced >= 3 fills.",
@@ -64,8 +66,10 @@ def registry() -> Dict[str, Check]:
     )
     reg["C02"] = Check(
         "C02", {"C02"},
-        [Batch("B-mix", gen_b.gen_history, 30000, 400000, driver="B", budget_s=30.0),
-         Batch("A-engine", gen_a.gen_engine, 2500, 40000, driver="A", budget_s=90.0, profile="engine")],
+        [Batch("B-mix", gen_b.gen_history, 15000, 400000, driver="B", budget_s=30.0),
+         Batch("A-engine", gen_a.gen_engine, 2500, 40000, driver="A", budget_s=90.0, profile="engine"),
+         Batch("B-deep", gen_b.gen_deep, 96, 3000, driver="B", budget_s=300.0, profile="deep"),
+         Batch("A-scale", gen_a.gen_scale, 12, 240, driver="A", budget_s=600.0, profile="scale")],
         nontrivial=lambda s: s["probes"].get("cmp_tie_price_time", 0) > 0 and s["stats"].get("rounds_nonempty", 0) > 0,
         rule="Seeded driver-B histories / driver-A runs; non-trivial = at least one non-empty round and at least one "
              "pair of live orders tied in price and time compared.",
@@ -73,8 +77,10 @@ def registry() -> Dict[str, Check]:
     )
     reg["C03"] = Check(
         "C03", {"C03"},
-        [Batch("B-mix", gen_b.gen_history, 40000, 400000, driver="B", budget_s=30.0),
-         Batch("A-engine", gen_a.gen_engine, 2500, 40000, driver="A", budget_s=90.0, profile="engine")],
+        [Batch("B-mix", gen_b.gen_history, 20000, 400000, driver="B", budget_s=30.0),
+         Batch("A-engine", gen_a.gen_engine, 2500, 40000, driver="A", budget_s=90.0, profile="engine"),
+         Batch("B-deep", gen_b.gen_deep, 96, 3000, driver="B", budget_s=300.0, profile="deep"),
+         Batch("A-scale", gen_a.gen_scale, 12, 240, driver="A", budget_s=600.0, profile="scale")],
         nontrivial=lambda s: s["probes"].get("crossed_book_cleared", 0) + s["probes"].get("market_vs_market_pair", 0) > 0,
         rule="Seeded driver-B histories / driver-A runs; non-trivial = a crossed book accumulated during an outage was "
              "cleared by one round with >= 2 fills, or market orders met market orders.",
@@ -83,8 +89,10 @@ def registry() -> Dict[str, Check]:
     )
     reg["C04"] = Check(
         "C04", {"C04"},
-        [Batch("B-mix", gen_b.gen_history, 30000, 400000, driver="B", budget_s=30.0),
-         Batch("A-engine", gen_a.gen_engine, 3000, 40000, driver="A", budget_s=90.0, profile="engine_hostile")],
+        [Batch("B-mix", gen_b.gen_history, 15000, 400000, driver="B", budget_s=30.0),
+         Batch("A-engine", gen_a.gen_engine, 3000, 40000, driver="A", budget_s=90.0, profile="engine_hostile"),
+         Batch("B-deep", gen_b.gen_deep, 96, 3000, driver="B", budget_s=300.0, profile="deep"),
+         Batch("A-scale", gen_a.gen_scale, 12, 240, driver="A", budget_s=600.0, profile="scale")],
         nontrivial=lambda s: s["stats"].get("expiries", 0) > 0 and s["stats"].get("cancels", 0) > 0,
         rule="Seeded driver-B histories / driver-A runs; non-trivial = at least one expiry and one cancel happened.",
         need_probes=["partial_fill_then_cancel", "partial_fill_then_expiry", "cancel_after_filled", "cancel_after_expired",
@@ -92,8 +100,10 @@ def registry() -> Dict[str, Check]:
     )
     reg["C08"] = Check(
         "C08", {"C08"},
-        [Batch("B-mix", gen_b.gen_history, 30000, 400000, driver="B", budget_s=30.0),
-         Batch("A-engine", gen_a.gen_engine, 3000, 40000, driver="A", budget_s=90.0, profile="engine")],
+        [Batch("B-mix", gen_b.gen_history, 15000, 400000, driver="B", budget_s=30.0),
+         Batch("A-engine", gen_a.gen_engine, 3000, 40000, driver="A", budget_s=90.0, profile="engine"),
+         Batch("B-deep", gen_b.gen_deep, 96, 3000, driver="B", budget_s=300.0, profile="deep"),
+         Batch("A-scale", gen_a.gen_scale, 12, 240, driver="A", budget_s=600.0, profile="scale")],
         nontrivial=lambda s: s["probes"].get("book_event_while_stopped", 0) > 0 and s["stats"].get("fills", 0) > 0,
         rule="Seeded driver-B histories / driver-A runs; non-trivial = book events happened while the market was not "
              "running and at least one fill happened.",
@@ -101,8 +111,9 @@ def registry() -> Dict[str, Check]:
     )
     reg["C19"] = Check(
         "C19", {"C19"},
-        [Batch("B-mix", gen_b.gen_history, 30000, 400000, driver="B", budget_s=30.0),
-         Batch("A-engine", gen_a.gen_engine, 2000, 30000, driver="A", budget_s=90.0, profile="engine")],
+        [Batch("B-mix", gen_b.gen_history, 15000, 400000, driver="B", budget_s=30.0),
+         Batch("A-engine", gen_a.gen_engine, 2000, 30000, driver="A", budget_s=90.0, profile="engine"),
+         Batch("B-deep", gen_b.gen_deep, 96, 3000, driver="B", budget_s=300.0, profile="deep")],
         nontrivial=lambda s: s["probes"].get("c19_off_grid_buy", 0) > 0 and s["probes"].get("c19_off_grid_sell", 0) > 0,
         rule="Every accepted limit order of every history is an instance; non-trivial = off-grid prices on both sides "
              "were accepted in the run.",
@@ -111,7 +122,8 @@ def registry() -> Dict[str, Check]:
     reg["C05"] = Check(
         "C05", {"C05"},
         [Batch("A-ledger", gen_a.gen_world, 4000, 40000, driver="A", budget_s=90.0, profile="ledger"),
-         Batch("B-mix", gen_b.gen_history, 15000, 200000, driver="B", budget_s=30.0)],
+         Batch("B-mix", gen_b.gen_history, 15000, 200000, driver="B", budget_s=30.0),
+         Batch("A-scale", gen_a.gen_scale, 12, 240, driver="A", budget_s=600.0, profile="scale")],
         plugins=lambda: [oracles_a.LedgerPlugin()],
         nontrivial=lambda s: s["stats"].get("fills", 0) >= 3,
         rule="Driver-A runs (markets incl. index, scripted normal/HFT agents, built-in agents) and driver-B "
@@ -120,7 +132,8 @@ def registry() -> Dict[str, Check]:
     )
     reg["C06"] = Check(
         "C06", {"C06"},
-        [Batch("A-clock", gen_a.gen_world, 300, 6000, driver="A", budget_s=240.0, profile="clock")],
+        [Batch("A-clock", gen_a.gen_world, 300, 6000, driver="A", budget_s=240.0, profile="clock"),
+         Batch("A-scale", gen_a.gen_scale, 12, 240, driver="A", budget_s=900.0, profile="scale")],
         plugins=lambda: [oracles_a.ClockPlugin(), oracles_a.IndexPlugin()],
         nontrivial=lambda s: s["probes"].get("storage_chunk_boundary_crossed", 0) > 0 and s["stats"].get("fills", 0) > 0,
         rule="Driver-A runs with 1-5 sessions, small storage/generation chunks or > 200 steps; non-trivial = a storage "
@@ -129,7 +142,8 @@ def registry() -> Dict[str, Check]:
     )
     reg["C09"] = Check(
         "C09", {"C09", "C03"},
-        [Batch("A-sessions", gen_a.gen_world, 6000, 80000, driver="A", budget_s=90.0, profile="sessions")],
+        [Batch("A-sessions", gen_a.gen_world, 6000, 80000, driver="A", budget_s=90.0, profile="sessions"),
+         Batch("A-crowd", gen_a.gen_crowd, 200, 4000, driver="A", budget_s=300.0, profile="crowd")],
         plugins=lambda: [oracles_a.SessionRulesPlugin()],
         nontrivial=lambda s: s["probes"].get("normal_cap_reached", 0) + s["probes"].get("hft_cap_reached", 0) > 0,
         rule="Driver-A runs over session lists with all flag combinations, caps incl. 0, rates incl. 0 and 1, "
@@ -138,14 +152,16 @@ def registry() -> Dict[str, Check]:
     )
     reg["C10"] = Check(
         "C10", {"C10", "C04"},
-        [Batch("A-logger", gen_a.gen_world, 5000, 60000, driver="A", budget_s=90.0, profile="logger")],
+        [Batch("A-logger", gen_a.gen_world, 5000, 60000, driver="A", budget_s=90.0, profile="logger"),
+         Batch("A-scale", gen_a.gen_scale, 12, 240, driver="A", budget_s=900.0, profile="scale")],
         plugins=lambda: [oracles_a.LoggerPlugin()],
         nontrivial=lambda s: s["stats"].get("fills", 0) > 0 and s["stats"].get("expiries", 0) > 0 and s["stats"].get("cancels", 0) > 0,
         rule="Driver-A runs with all event kinds; non-trivial = the run contained fills, cancels and expiries.",
     )
     reg["C11"] = Check(
         "C11", {"C11"},
-        [Batch("A-callbacks", gen_a.gen_world, 5000, 60000, driver="A", budget_s=90.0, profile="callbacks")],
+        [Batch("A-callbacks", gen_a.gen_world, 5000, 60000, driver="A", budget_s=90.0, profile="callbacks"),
+         Batch("A-scale", gen_a.gen_scale, 12, 240, driver="A", budget_s=900.0, profile="scale")],
         plugins=lambda: [oracles_a.CallbackPlugin()],
         nontrivial=lambda s: s["stats"].get("fills", 0) > 0 and s["stats"].get("cancels", 0) > 0,
         rule="Driver-A runs with scripted normal and HFT agents; non-trivial = fills and cancels happened.",
